@@ -468,6 +468,10 @@ def run(repo: Repo, rep: Report, tier: str) -> None:
     from .c08 import generated_globals_rule
 
     generated_globals_rule(repo, rep, "C02.R10")
+    from .c09 import absolute_padding_rule
+
+    absolute_padding_rule(repo, rep, "C02.R11")
+
 
 
 
